@@ -5,25 +5,46 @@ From Coq Require Import List Arith Permutation.
 Import ListNotations.
 From Sodium Require Import Engine EngineScript EngineSafe EngineFuel EngineLog EngineTop.
 
-(* For EVERY well-formed acyclic raw graph (any number of nodes, any shape, any registration order of
-   dependents) and every list of distinct fired sources (any queue order): the transaction ends, every
-   node's final firing is the denotation computed from all its settled inputs, every node with a changed
-   input is updated exactly once and after all of its inputs, no other node is updated, and the graph
-   is back at rest. *)
+(* For EVERY well-formed raw graph whose potential graph (static dependencies and potential demand
+   targets) is acyclic (any number of nodes, any shape, any registration order of dependents, any number of
+   nodes that demand other nodes from inside their update) and every list of distinct fired sources (any
+   queue order): the transaction ends, every node's final firing is the denotation computed from all its
+   settled inputs (the static dependencies and the nodes demanded in this transaction, `sdemanded`), every
+   node with a changed input is updated exactly once and after all of its inputs, no other node is updated,
+   and the graph is back at rest. *)
 Theorem C03_glitch_free : forall gr fs,
     EngineTop.wf gr -> ranked gr -> sources gr fs ->
     exists lg, estep false gr (ETxn fs) = (gr, Some (lg, map (den gr fs) (seq 0 (length gr)))) /\
                NoDup lg /\
                (forall n, In n lg <-> (n < length gr /\ deps (get gr n) <> [] /\
+                                       exists d, In d (deps (get gr n) ++ sdemanded gr fs n) /\ den gr fs d <> None)) /\
+               (forall l1 n l2, lg = l1 ++ n :: l2 ->
+                                forall d, In d (deps (get gr n) ++ sdemanded gr fs n) -> ~ In d l2).
+Proof. exact C03_txn. Qed.
+
+(* a node that demands nothing (ENode): the statement as it was before demands were modelled *)
+Corollary C03_glitch_free_no_demands : forall gr fs,
+    EngineTop.wf gr -> ranked gr -> sources gr fs -> (forall n, dem (get gr n) = []) ->
+    exists lg, estep false gr (ETxn fs) = (gr, Some (lg, map (den gr fs) (seq 0 (length gr)))) /\
+               NoDup lg /\
+               (forall n, In n lg <-> (n < length gr /\ deps (get gr n) <> [] /\
                                        exists d, In d (deps (get gr n)) /\ den gr fs d <> None)) /\
                (forall l1 n l2, lg = l1 ++ n :: l2 -> forall d, In d (deps (get gr n)) -> ~ In d l2).
-Proof. exact C03_txn. Qed.
+Proof.
+  intros gr fs W R S ND. destruct (C03_txn gr fs W R S) as (lg & E & N & Iff & St).
+  assert (Z : forall n, sdemanded gr fs n = []).
+  { intros n. unfold sdemanded, sDm. rewrite ND. destruct (is_some _); reflexivity. }
+  exists lg. split; [exact E|]. split; [exact N|]. split.
+  - intros n. rewrite Iff, Z, app_nil_r. reflexivity.
+  - intros l1 n l2 El d Hd. apply (St l1 n l2 El d). rewrite Z, app_nil_r. exact Hd.
+Qed.
+Print Assumptions C03_glitch_free_no_demands.
 Print Assumptions C03_glitch_free.
 
 (* the result does not depend on the order of sends nor on the order in which dependents registered *)
 Theorem C03_order_free : forall gr fs gr2 fs2,
     EngineTop.wf gr -> ranked gr -> sources gr fs ->
-    EngineTop.wf gr2 -> map deps gr2 = map deps gr -> Permutation fs fs2 ->
+    EngineTop.wf gr2 -> map deps gr2 = map deps gr -> map dem gr2 = map dem gr -> Permutation fs fs2 ->
     exists lg lg2 fires,
       estep false gr (ETxn fs) = (gr, Some (lg, fires)) /\
       estep false gr2 (ETxn fs2) = (gr2, Some (lg2, fires)) /\
@@ -32,12 +53,12 @@ Proof. exact C03_order_independent. Qed.
 Print Assumptions C03_order_free.
 
 (* the propagation never runs out of the fuel the model gives it (termination), for every rule *)
-Theorem C03_terminates : forall (Val : Type) (F : rule Val) orig s,
-    drain F orig (S (S (length (g s)))) (S (S (length (g s) + length (g s)))) s <> None.
+Theorem C03_terminates : forall (Val : Type) (F : rule Val) (Dm : demand Val) orig s,
+    drain F Dm orig (S (S (length (g s)))) (S (S (length (g s) + length (g s)))) s <> None.
 Proof. intros Val. exact (@drain_fuel_estep Val). Qed.
 Print Assumptions C03_terminates.
 
-(* graphs built by script operations are well formed; new nodes keep the graph acyclic *)
+(* graphs built by script operations (ENode, ENodeD, EAddDep) are well formed; new nodes keep the graph acyclic *)
 Theorem C03_build_wf : forall orig gr op,
     is_build op = true -> EngineTop.wf gr -> EngineTop.wf (fst (estep orig gr op)).
 Proof. exact wf_estep_build. Qed.
@@ -58,3 +79,15 @@ Print Assumptions C03_original_algorithm_refuted.
 Example C03_nonvacuous : EngineTop.wf Gex /\ ranked Gex /\ sources Gex ex_fs.
 Proof. split; [exact Gex_wf | split; [exact Gex_ranked | exact Gex_sources]]. Qed.
 Print Assumptions C03_nonvacuous.
+
+(* ... and so does a 6-node graph with two demanding nodes (ENodeD), in which the demand matters: node 2
+   is updated because node 3 demands it from inside its own update, before node 3's update reads it *)
+Example C03_nonvacuous_demands :
+  EngineTop.wf GexD /\ ranked GexD /\ sources GexD exD_fs /\
+  map dem GexD = [[]; []; []; [2]; []; [4]] /\
+  map (sdemanded GexD exD_fs) (seq 0 6) = [[]; []; []; [2]; []; [4]] /\
+  snd (estep false GexD (ETxn exD_fs)) = Some ([2; 3; 4; 5], [Some 5; Some 7; Some 10; Some 32; Some 37; Some 67]).
+Proof.
+  split; [exact GexD_wf | split; [exact GexD_ranked | split; [exact GexD_sources|]]]. vm_compute. auto.
+Qed.
+Print Assumptions C03_nonvacuous_demands.
